@@ -59,7 +59,19 @@ impl<A> OnceCell<A> {
     pub fn get(&self) -> (r: Option<&A>)
         ensures match self.peek() { Some(v) => r matches Some(w) && *w == v, None => r is None }
     { unimplemented!() }
+    // `OnceCell::set` (`&self` in once_cell; `&mut self` in the model, see Lazy::load): fills an empty cell, leaves a full one
+    // alone and hands the value back
+    #[verifier::external_body]
+    pub fn set(&mut self, value: A) -> (r: core::result::Result<(), A>)
+        ensures
+            old(self).peek() is None ==> r is Ok && final(self).peek() == Some(value),
+            old(self).peek() is Some ==> r == Err::<(), A>(value) && final(self).peek() == old(self).peek(),
+    { unimplemented!() }
 }
+// `cell.get().cloned()`: the first half of `get_or_try_init(..).cloned()` (Clone for MaybeRef / RcRef: clones the Arc, keeps the
+// reference; mod.rs:375, 293)
+#[verifier::external_body]
+fn hoist_cell_get_cloned<A>(c: &OnceCell<A>) -> (r: Option<A>) ensures r == c.peek() { unimplemented!() }
 
 // ---- the object store behind a `Resolve` ----------------------------------------------------------------------------
 #[verifier::external_body] pub struct Store { _p: () }
@@ -173,20 +185,20 @@ fn hoist_map_direct<T>(x: Result<T>) -> (r: Result<MaybeRef<T>>)
         x matches Err(e) ==> r == Err::<MaybeRef<T>, PdfError>(e),
         x matches Ok(v) ==> r matches Ok(MaybeRef::Direct(a)) && *a == v,
 { x.map(|o| MaybeRef::Direct(Arc::new(o))) }
-// `res.cloned()` on Result<&MaybeRef<T>> (Clone for MaybeRef / RcRef: clones the Arc, keeps the reference; mod.rs:375, 293)
+// the tail of `OnceCell::get_or_try_init(..).cloned()` on an empty cell: an Ok value is stored and (a clone of) it handed out, an
+// Err is passed through and the cell stays empty (once_cell 1.x: `let val = f()?; ... self.set(val) ...; Ok(self.get_unchecked())`)
 #[verifier::external_body]
-fn hoist_cloned<T>(x: Result<&MaybeRef<T>>) -> (r: Result<MaybeRef<T>>)
-    ensures r == (match x { Ok(m) => Ok::<MaybeRef<T>, PdfError>(*m), Err(e) => Err::<MaybeRef<T>, PdfError>(e) })
-{ /* hoisted text: `x.cloned()` (the env twin of MaybeRef has no Clone impl) */ unimplemented!() }
-// the tail of `OnceCell::get_or_try_init` on an empty cell: an Ok value is stored and a reference to it handed out, an
-// Err is passed through (once_cell 1.x: `let val = f()?; ... self.set(val) ...; Ok(self.get_unchecked())`)
-#[verifier::external_body]
-fn hoist_once_init<A>(c: &OnceCell<A>, v: Result<A>) -> (r: Result<&A>)
-    requires c.peek() is None
+fn hoist_once_init<A>(c: &mut OnceCell<A>, v: Result<A>) -> (r: Result<A>)
+    requires old(c).peek() is None
     ensures
-        v matches Ok(x) ==> r matches Ok(w) && *w == x,
-        v matches Err(e) ==> r matches Err(e2) && e2 == e,
+        v matches Ok(x) ==> r == Ok::<A, PdfError>(x) && final(c).peek() == Some(x),
+        v matches Err(e) ==> r == Err::<A, PdfError>(e) && final(c).peek() is None,
 { unimplemented!() }
+// trusted: `impl<T> Clone for MaybeRef<T>` (mod.rs: clones the Arc / the RcRef, same kind, same reference, same shared value)
+impl<T> Clone for MaybeRef<T> {
+    #[verifier::external_body]
+    fn clone(&self) -> (r: MaybeRef<T>) ensures r == *self { unimplemented!() }
+}
 // `Shared::new(x)` = Arc::new
 #[verifier::external_body]
 fn hoist_shared_new<T>(x: T) -> (r: Shared<T>) ensures *r == x { Shared::new(x) }
@@ -276,6 +288,17 @@ pub open spec fn indirect_facts<T>(p: Primitive, st: Store, r: Result<MaybeRef<T
 //@@ mayberef_to_primitive
 
 // ---- Lazy<T> ------------------------------------------------------------------------------------------------------------
+/// the shared value of a MaybeRef, whichever kind
+pub open spec fn maybe_data<T>(m: MaybeRef<T>) -> Shared<T> {
+    match m { MaybeRef::Direct(t) => t, MaybeRef::Indirect(rc) => rc.data }
+}
+impl<T> MaybeRef<T> {
+//@@ MaybeRef::data
+}
+/// C12 representation invariant of the memo: the cell is empty, or holds what the uncached load of `primitive` answers
+pub open spec fn memo_ok<T: Object>(l: Lazy<T>, st: Store) -> bool {
+    l.cache.peek() matches Some(m) ==> maybe_reads::<T>(l.primitive, st, Ok::<MaybeRef<T>, PdfError>(m))
+}
 impl<T: Object> Lazy<T> {
 //@@ Lazy::load
 }
